@@ -14,21 +14,22 @@ import (
 )
 
 type Entry struct {
-	Path     string            // clean relative slash path
-	Type     string            // file dir symlink fifo chr blk sock
-	Perm     uint32            // unix permission bits incl. suid/sgid/sticky (07777)
+	Path     string // clean relative slash path
+	Type     string // file dir symlink fifo chr blk sock
+	Perm     uint32 // unix permission bits incl. suid/sgid/sticky (07777)
 	Uid, Gid uint32
 	Size     int64
-	Mtime    int64 // ns
-	Data     []byte            // bytes of a regular file (source side / generator)
-	Content  string            // content id = hash of bytes (files only)
-	Link     string            // symlink target
+	Mtime    int64  // ns
+	Data     []byte `json:"-"` // bytes of a regular file (source side / generator)
+	DSeed    int64  // Data = PRF(DSeed, Size) for generated files (replayable)
+	Content  string // content id = hash of bytes (files only)
+	Link     string // symlink target
 	Devmajor int64
 	Devminor int64
 	Xattrs   map[string]string
 	Group    int    // hard-link group: 0 = none, else canonical label (1-based index of first member)
-	Ino      uint64 // snapshot only
-	Nlink    uint64 // snapshot only
+	Ino      uint64 `json:"-"` // snapshot only
+	Nlink    uint64 `json:"-"` // snapshot only
 }
 
 type Tree []Entry
